@@ -2,6 +2,7 @@ package main
 
 import (
 	"fmt"
+	"strings"
 
 	"verif/bt/drive"
 	"verif/bt/gen"
@@ -13,7 +14,7 @@ func init() { register("C01", "exploration", runC01) }
 
 // C01: differential monitor: generated mutation programs against the reference data model, full re-read after every request.
 func runC01(run *common.Run) {
-	run.Rule = "case = one generated mutation program (20-60 MutateRow/MutateRows requests over 8 colliding row keys, 2+1 families, 5 qualifiers, boundary/invalid timestamps, moving injected clock; every fourth program is a wide-column program: 2 rows x 4 columns, 64 timestamps, up to 12 mutations per request, so columns hold dozens of versions that are overwritten in place and cut by narrow delete ranges) run on one engine; after every request the whole table and the touched rows are re-read and compared cell-for-cell with the reference model. Non-trivial = the program had at least one delete that removed a cell, one rejected request and one server-time write; distinct by program hash x engine."
+	run.Rule = "case = one generated mutation program (20-60 MutateRow/MutateRows requests over 8 colliding row keys, 2+1 families, 5 qualifiers, boundary/invalid timestamps, moving injected clock; every fourth program is a wide-column program: 2 rows x 4 columns, 64 timestamps, up to 12 mutations per request, so columns hold dozens of versions that are overwritten in place and cut by narrow delete ranges; every eighth is a many-column program over 54 qualifiers, so families hold dozens of columns) run on one engine; after every request the whole table and the touched rows are re-read and compared cell-for-cell with the reference model. Part 'heavy': rows whose cells hold values of 256 KiB ... 1 MiB + 1 in every position, re-read alone and in scans after each write. Non-trivial = the program had at least one delete that removed a cell, one rejected request and one server-time write; distinct by program hash x engine."
 	run.Assumptions = []string{"reference model written from the data-model documentation", "family order within a row is unspecified and not compared", "error codes are not compared, only OK vs not-OK"}
 	j := common.NewJournal("C01")
 	nprog := run.N(600, 6000)
@@ -39,9 +40,86 @@ func runC01(run *common.Run) {
 			j.End(i % 64)
 		})
 	}
+	if run.WantSub("heavy") {
+		nheavy := run.N(4, 30)
+		common.Parallel(nheavy*3, 3, func(i int) {
+			if !run.Want("heavy", i) || run.TooMany() {
+				return
+			}
+			j.Begin(i%64, fmt.Sprintf("C01 heavy case=%d seed=%d", i, run.Seed))
+			c01Heavy(run, i/3, drive.Engines[i%3], i)
+			j.End(i % 64)
+		})
+	}
 	if run.IsThorough() && run.WantSub("exh") {
 		c01Exhaustive(run)
 	}
+}
+
+// c01Heavy: rows whose cells hold values around the sizes at which a server might split or flush a response
+// (256 KiB ... 1 MiB + 1), in every position of the row; each row is re-read alone and in scans.
+func c01Heavy(run *common.Run, prog int, engine string, idx int) {
+	r := run.Rand("C01.heavy", prog)
+	srv, err := drive.Start(engine, gen.BaseClock, "")
+	if err != nil {
+		run.Violation("heavy", idx, "cannot start server: "+err.Error(), nil)
+		return
+	}
+	defer srv.Close(true)
+	table := drive.MustTable(srv.Admin, "t", gen.Fams...)
+	m := model.NewTable(gen.Fams...)
+	sizes := []int{1, 100, 256 << 10, 512 << 10, 1<<20 - 1, 1 << 20, 1<<20 + 1, 700 << 10}
+	var steps []string
+	fail := func(what string) {
+		run.Violation("heavy", idx, what, map[string]any{"engine": engine, "steps": steps})
+	}
+	nrows := r.Range(3, 6)
+	var total int64
+	for ri := 0; ri < nrows; ri++ {
+		key := fmt.Sprintf("h%d", ri)
+		ncells := r.Range(1, 3)
+		for c := 0; c < ncells; c++ {
+			size := common.Pick(r, sizes)
+			if ri == 0 && prog%2 == 0 {
+				size = []int{1 << 20, 512 << 10, 512 << 10}[c] // a row that reaches exactly 1 MiB on a cell boundary
+			}
+			val := strings.Repeat(fmt.Sprintf("%c%c", 'A'+ri, 'a'+c), size/2+1)[:size]
+			mu := model.Mut{Kind: model.SetCell, Fam: common.Pick(r, gen.Fams), Qual: common.Pick(r, []string{"", "q", "z"}), TS: int64(r.Intn(3)) * 1000, Val: val}
+			verdict, newRow := m.Apply(key, []model.Mut{mu}, gen.BaseClock)
+			st := drive.MutateRow(srv.Data, table, key, []model.Mut{mu})
+			steps = append(steps, fmt.Sprintf("MutateRow(%q, Set(%s:%q@%d = %d bytes)) -> %s", key, mu.Fam, mu.Qual, mu.TS, size, st))
+			if verdict != model.MustOK || !st.OK() {
+				fail("valid MutateRow with a large value rejected: " + st.String())
+				return
+			}
+			m.Commit(key, newRow)
+			total += int64(size)
+			if msg := checkRow(srv.Data, table, key, m); msg != "" {
+				fail("after " + steps[len(steps)-1] + ": " + trunc(msg, 600))
+				return
+			}
+		}
+		if msg := checkTable(srv.Data, table, m); msg != "" {
+			fail(fmt.Sprintf("scan after writing row %q: %s", key, trunc(msg, 600)))
+			return
+		}
+	}
+	for _, k := range m.Keys() {
+		if msg := checkRow(srv.Data, table, k, m); msg != "" {
+			fail("final single-row read: " + trunc(msg, 600))
+			return
+		}
+	}
+	run.Case(common.Hash64("heavy", engine, fmt.Sprint(steps)), true)
+	run.Count("heavy_value_bytes_written_and_read_back", total)
+	run.Count("heavy_programs", 1)
+}
+
+func trunc(s string, n int) string {
+	if len(s) > n {
+		return s[:n] + "..."
+	}
+	return s
 }
 
 func engineIndex(e string) int {
@@ -81,6 +159,18 @@ func c01Program(run *common.Run, prog int, engine string, idx int) {
 		o = gen.Opts{InvalidPct: 1, Wide: 64}
 		keys = gen.Keys[:2]
 		maxMuts = 12
+	}
+	if prog%8 == 5 {
+		// many-column programs: 2 rows, 50 qualifiers (plus the empty one), mostly SetCells, several per request
+		pool := []string{""}
+		for c := 0; c < 50; c++ {
+			pool = append(pool, fmt.Sprintf("c%02d", c*2))
+		}
+		pool = append(pool, "c31", "c33", "c35") // odd ones: created late, sort between existing columns
+		o = gen.Opts{InvalidPct: 1, Wide: 4, QualPool: pool}
+		keys = gen.Keys[:2]
+		maxMuts = 16
+		run.Count("many_column_programs", 1)
 	}
 	var steps []c01Step
 	var deletesThatRemoved, rejected, serverTime, overwrites int
@@ -193,6 +283,7 @@ func c01Program(run *common.Run, prog int, engine string, idx int) {
 	}
 	h := common.Hash64(fmt.Sprint(steps), engine)
 	run.Case(h, deletesThatRemoved > 0 && rejected > 0 && serverTime > 0)
+	run.Max("max_columns_in_one_family", int64(maxColumns(m)))
 	if wide {
 		run.Count("wide_programs", 1)
 		run.Max("max_versions_in_one_column", int64(maxVersions(m)))
@@ -214,6 +305,16 @@ func countOverwrites(m *model.Table, key string, muts []model.Mut) int {
 			if _, ok := m.Rows[key][mu.Fam][mu.Qual][mu.TS]; ok {
 				n++
 			}
+		}
+	}
+	return n
+}
+
+func maxColumns(m *model.Table) int {
+	n := 0
+	for _, row := range m.Rows {
+		for _, fam := range row {
+			n = max(n, len(fam))
 		}
 	}
 	return n
